@@ -411,8 +411,8 @@ func sshPayload(r *hx.Rand, ty string) []byte {
 func genSSHInputs(o hx.Opts, r *hx.Rand) []SSHInput {
 	var ins []SSHInput
 	// corpus: a large reply followed at once by the backend closing the channel (as sshd
-	// does after the command's output): the proxy's request goroutine closes the client's
-	// channel while the data copier is still at work
+	// does after the command's output); before the repair fc51d79 the proxy's request
+	// goroutine closed the client's channel while the data copier was still at work
 	ins = append(ins, SSHInput{User: "root-corpus", Passwords: []string{"toor"}, Accept: "toor",
 		Reqs: []SSHReq{{Type: "exec", Want: true, Payload: ssh.Marshal(struct{ Command string }{"cat /var/log/big"})}},
 		Data: nil, Reply: []hx.B{hx.B(r.Bytes(131072))}})
